@@ -3,6 +3,7 @@ import Driver.C01Mon
 import Driver.C02Mon
 import Driver.C12Mon
 import Driver.FlowMon
+import Driver.C11Mon
 open Kv
 
 structure MState where
@@ -16,6 +17,7 @@ def dispatchMon (st : MState) (prop : String) (l : Line) : MState × String :=
   | "C01" => (st, Drv.C01.stepMon l)
   | "C02" => (st, Drv.C02.stepMon l)
   | "C12" => (st, Drv.C12.step l)
+  | "C11" => (st, Drv.C11.stepMon l)
   | "C04" => let (s, r) := Drv.Flow.stepMon "C04" st.c04 l; ({ st with c04 := s }, r)
   | "C07" => let (s, r) := Drv.Flow.stepMon "C07" st.c07 l; ({ st with c07 := s }, r)
   | _ => (st, "bad-op")
